@@ -9,7 +9,9 @@ import (
 	"io"
 	"os"
 	"path/filepath"
+	"reflect"
 	"runtime"
+	"sync"
 	"sync/atomic"
 	"time"
 
@@ -127,6 +129,10 @@ func readPath(pth string) (R, uint64, int64) {
 	})
 }
 
+var prevMu sync.Mutex
+var prevSMF *smf.SMF
+var prevR R
+
 func readWith(read func() (*smf.SMF, error)) (R, uint64, int64) {
 	type res struct {
 		r     R
@@ -145,7 +151,25 @@ func readWith(read func() (*smf.SMF, error)) (R, uint64, int64) {
 		if a > 1<<30 {
 			a = 1 << 30
 		}
-		ch <- res{toR(s, err, p), a}
+		r := toR(s, err, p)
+		// the value the PREVIOUS read returned is retained and looked at again now: reading another file must not change it
+		// (a buffer shared between reads); reported in place of this read's outcome, so that every judge rejects it
+		prevMu.Lock()
+		if prevSMF != nil && !reflect.DeepEqual(toR(prevSMF, nil, ""), prevR) {
+			r = R{Kind: "earlier-result-changed", Tracks: [][]REvent{}, Msg: "the SMF value an earlier read returned changed while this one was read"}
+		}
+		prevSMF = nil
+		if r.Kind == "value" {
+			n := 0
+			for _, t := range s.Tracks {
+				n += len(t)
+			}
+			if n <= 2000 {
+				prevSMF, prevR = s, r
+			}
+		}
+		prevMu.Unlock()
+		ch <- res{r, a}
 	}()
 	select {
 	case x := <-ch:
